@@ -2,9 +2,9 @@
 (* Generation config for ChunkCache: every transition printed as JSON.     *)
 EXTENDS ChunkCache, Json
 CoreRec  == [W |-> W,  B |-> B,  dmap |-> dmap,  dlru |-> dlru,  I |-> I,  path |-> path,
-             F |-> F,  fmap |-> fmap,  flru |-> flru,  R |-> R]
+             F |-> F,  fmap |-> fmap,  flru |-> flru,  R |-> R, shut |-> shut]
 CoreRecP == [W |-> W', B |-> B', dmap |-> dmap', dlru |-> dlru', I |-> I', path |-> path',
-             F |-> F', fmap |-> fmap', flru |-> flru', R |-> R']
+             F |-> F', fmap |-> fmap', flru |-> flru', R |-> R', shut |-> shut']
 GenInit == Init /\ PrintT("VINIT " \o ToJson(CoreRec))
 GenNext == Next /\ PrintT("VEDGE " \o ToJson([from |-> CoreRec, last |-> last', to |-> CoreRecP]))
 =============================================================================
